@@ -17,7 +17,7 @@ RULE = ("(encoder level) for every setting of ET, DT and the register-addressed 
         "write_setting(id, v) then read_setting(id) through the real transports (Modbus RTU/UDP, Modbus/TCP, AA55) against a simulated "
         "register file with arbitrary (and boundary) prior contents that change between writes on the same inverter object, also on a kept-alive connection to an inverter answering 0.6 timeouts late: exactly one write frame, "
         "addressed to the setting's registers, carrying the reference encoding; no other register changes (other half of a shared "
-        "register preserved); the value reads back; distinct = distinct (family, transport, setting id, value class) tuples")
+        "register preserved); the value reads back; a write the inverter refuses with a non-address exception must not be reported as success; distinct = distinct (family, transport, setting id, value class) tuples")
 ASSUMPTIONS = ["values whose encoding is the type's 'no value' sentinel (Integer 65535, Voltage/Current 6553.5, Long 2^32-1) are "
                "outside the readable domain: only the write part is asserted for them",
                "ES: only the register-addressed settings (eco-mode groups and switches; 011A/0239 over AA55 for v1, Modbus for v2)"]
